@@ -1,9 +1,474 @@
 package main
 
+// lockfacts — the regenerated tie for C19.  A go/ast + go/types walk over /repo's non-test
+// files that records, for every access to a field of a struct type of the package, which
+// mutexes are certainly held at that point (a must-hold lock set computed per function body:
+// x.Lock()/x.Unlock() calls and `defer x.Unlock()`, intersection at control-flow joins;
+// function literals — goroutine bodies — start with the empty set).  It prints
+// G9/GeneratedLocks.lean: one `Access` per field access.  The expectations (which field is
+// guarded by which lock, which accesses are exempt and why) are hand-written in
+// lean/G9/Locks.lean and the theorem that every access meets them is re-checked on every run.
+
 import (
 	"fmt"
+	"go/ast"
+	"go/importer"
+	"go/parser"
+	"go/token"
+	"go/types"
 	"io"
+	"os"
+	"path/filepath"
+	"sort"
+	"strings"
 )
 
-// lockFacts is filled in by the C19 work (go/ast walk of /repo).
-func lockFacts(dir string, out io.Writer) { fmt.Fprintln(out, "-- lock facts: see lockfacts.go") }
+type heldLock struct {
+	typ  string // struct type owning the mutex ("Conn"), or "var:<name>" for a package-level mutex
+	base string // source text of the expression the lock was taken on
+}
+
+type access struct {
+	fn, field, base string
+	write            bool
+	held             []heldLock
+	file             string
+	line             int
+}
+
+type lockWalker struct {
+	fset *token.FileSet
+	info *types.Info
+	pkg  *types.Package
+	fn   string
+	out  *[]access
+}
+
+func exprText(e ast.Expr) string {
+	switch x := e.(type) {
+	case *ast.Ident:
+		return x.Name
+	case *ast.SelectorExpr:
+		return exprText(x.X) + "." + x.Sel.Name
+	case *ast.StarExpr:
+		return exprText(x.X)
+	case *ast.ParenExpr:
+		return exprText(x.X)
+	case *ast.IndexExpr:
+		return exprText(x.X) + "[]"
+	case *ast.CallExpr:
+		return exprText(x.Fun) + "()"
+	case *ast.TypeAssertExpr:
+		return exprText(x.X)
+	}
+	return "?"
+}
+
+// namedStruct returns the name of the package-level struct type e has (through pointers), or "".
+func (w *lockWalker) namedStruct(e ast.Expr) string {
+	t := w.info.TypeOf(e)
+	if t == nil {
+		return ""
+	}
+	for {
+		if p, ok := t.(*types.Pointer); ok {
+			t = p.Elem()
+			continue
+		}
+		break
+	}
+	n, ok := t.(*types.Named)
+	if !ok || n.Obj().Pkg() != w.pkg {
+		return ""
+	}
+	if _, ok := n.Underlying().(*types.Struct); !ok {
+		return ""
+	}
+	return n.Obj().Name()
+}
+
+// lockCall recognises x.Lock(), x.Unlock(), x.RLock(), x.RUnlock().
+func (w *lockWalker) lockCall(call *ast.CallExpr) (heldLock, string, bool) {
+	sel, ok := call.Fun.(*ast.SelectorExpr)
+	if !ok {
+		return heldLock{}, "", false
+	}
+	switch sel.Sel.Name {
+	case "Lock", "Unlock", "RLock", "RUnlock":
+	default:
+		return heldLock{}, "", false
+	}
+	if len(call.Args) != 0 {
+		return heldLock{}, "", false
+	}
+	if t := w.namedStruct(sel.X); t != "" {
+		return heldLock{t, exprText(sel.X)}, sel.Sel.Name, true
+	}
+	// a package-level sync.Mutex / sync.RWMutex
+	if id, ok := sel.X.(*ast.Ident); ok {
+		if tv := w.info.TypeOf(id); tv != nil && strings.HasPrefix(tv.String(), "sync.") {
+			return heldLock{"var:" + id.Name, id.Name}, sel.Sel.Name, true
+		}
+	}
+	return heldLock{}, "", false
+}
+
+type lockSet []heldLock
+
+func (s lockSet) with(l heldLock) lockSet {
+	for _, x := range s {
+		if x == l {
+			return s
+		}
+	}
+	return append(append(lockSet(nil), s...), l)
+}
+
+func (s lockSet) without(l heldLock) lockSet {
+	var r lockSet
+	for _, x := range s {
+		if x != l {
+			r = append(r, x)
+		}
+	}
+	return r
+}
+
+func meet(a, b lockSet) lockSet {
+	var r lockSet
+	for _, x := range a {
+		for _, y := range b {
+			if x == y {
+				r = append(r, x)
+			}
+		}
+	}
+	return r
+}
+
+// record notes every field access inside e (not descending into function literals, which are
+// walked on their own with an empty lock set).
+func (w *lockWalker) record(e ast.Node, held lockSet, write bool) {
+	if e == nil {
+		return
+	}
+	ast.Inspect(e, func(n ast.Node) bool {
+		switch x := n.(type) {
+		case *ast.FuncLit:
+			w.body(w.fn+"$lit", x.Body)
+			return false
+		case *ast.SelectorExpr:
+			if sel, ok := w.info.Selections[x]; ok && sel.Kind() == types.FieldVal {
+				if t := w.namedStruct(x.X); t != "" {
+					p := w.fset.Position(x.Pos())
+					*w.out = append(*w.out, access{fn: w.fn, field: t + "." + x.Sel.Name, base: exprText(x.X), write: write,
+						held: append([]heldLock(nil), held...), file: filepath.Base(p.Filename), line: p.Line})
+				}
+			}
+			// the base expression is read
+			w.record(x.X, held, false)
+			return false
+		}
+		return true
+	})
+}
+
+// lhs records the target of an assignment: the outermost field (or the map/slice it indexes) is written.
+func (w *lockWalker) lhs(e ast.Expr, held lockSet) {
+	switch x := e.(type) {
+	case *ast.IndexExpr:
+		w.lhs(x.X, held)
+		w.record(x.Index, held, false)
+	case *ast.StarExpr:
+		w.lhs(x.X, held)
+	case *ast.ParenExpr:
+		w.lhs(x.X, held)
+	case *ast.SelectorExpr:
+		if sel, ok := w.info.Selections[x]; ok && sel.Kind() == types.FieldVal {
+			if t := w.namedStruct(x.X); t != "" {
+				p := w.fset.Position(x.Pos())
+				*w.out = append(*w.out, access{fn: w.fn, field: t + "." + x.Sel.Name, base: exprText(x.X), write: true,
+					held: append([]heldLock(nil), held...), file: filepath.Base(p.Filename), line: p.Line})
+			}
+		}
+		w.record(x.X, held, false)
+	default:
+		w.record(e, held, false)
+	}
+}
+
+func terminates(b *ast.BlockStmt) bool {
+	if b == nil || len(b.List) == 0 {
+		return false
+	}
+	switch s := b.List[len(b.List)-1].(type) {
+	case *ast.ReturnStmt:
+		return true
+	case *ast.BranchStmt:
+		return s.Tok == token.BREAK || s.Tok == token.CONTINUE || s.Tok == token.GOTO
+	case *ast.ExprStmt:
+		if c, ok := s.X.(*ast.CallExpr); ok {
+			if id, ok := c.Fun.(*ast.Ident); ok && id.Name == "panic" {
+				return true
+			}
+		}
+	}
+	return false
+}
+
+func (w *lockWalker) block(b *ast.BlockStmt, held lockSet) lockSet {
+	if b == nil {
+		return held
+	}
+	for _, s := range b.List {
+		held = w.stmt(s, held)
+	}
+	return held
+}
+
+func (w *lockWalker) stmt(s ast.Stmt, held lockSet) lockSet {
+	switch x := s.(type) {
+	case *ast.ExprStmt:
+		if c, ok := x.X.(*ast.CallExpr); ok {
+			if l, op, ok := w.lockCall(c); ok {
+				if op == "Lock" || op == "RLock" {
+					return held.with(l)
+				}
+				return held.without(l)
+			}
+			// delete(m, k) writes m
+			if id, ok := c.Fun.(*ast.Ident); ok && id.Name == "delete" && len(c.Args) == 2 {
+				w.lhs(c.Args[0], held)
+				w.record(c.Args[1], held, false)
+				return held
+			}
+		}
+		w.record(x.X, held, false)
+	case *ast.DeferStmt:
+		if _, op, ok := w.lockCall(x.Call); ok && (op == "Unlock" || op == "RUnlock") {
+			return held // held until the function returns
+		}
+		w.record(x.Call, held, false)
+	case *ast.GoStmt:
+		w.record(x.Call, held, false)
+	case *ast.AssignStmt:
+		for _, r := range x.Rhs {
+			w.record(r, held, false)
+		}
+		for _, l := range x.Lhs {
+			w.lhs(l, held)
+		}
+	case *ast.IncDecStmt:
+		w.lhs(x.X, held)
+	case *ast.SendStmt:
+		w.record(x.Chan, held, false)
+		w.record(x.Value, held, false)
+	case *ast.ReturnStmt:
+		for _, r := range x.Results {
+			w.record(r, held, false)
+		}
+	case *ast.DeclStmt:
+		w.record(x.Decl, held, false)
+	case *ast.BlockStmt:
+		return w.block(x, held)
+	case *ast.LabeledStmt:
+		return w.stmt(x.Stmt, held)
+	case *ast.IfStmt:
+		if x.Init != nil {
+			held = w.stmt(x.Init, held)
+		}
+		w.record(x.Cond, held, false)
+		a := w.block(x.Body, held)
+		b := held
+		elseTerm := false
+		if x.Else != nil {
+			b = w.stmt(x.Else, held)
+			if eb, ok := x.Else.(*ast.BlockStmt); ok {
+				elseTerm = terminates(eb)
+			}
+		}
+		switch {
+		case terminates(x.Body) && elseTerm:
+			return held
+		case terminates(x.Body):
+			return b
+		case elseTerm:
+			return a
+		}
+		return meet(a, b)
+	case *ast.ForStmt:
+		if x.Init != nil {
+			held = w.stmt(x.Init, held)
+		}
+		w.record(x.Cond, held, false)
+		after := w.block(x.Body, held)
+		if x.Post != nil {
+			w.stmt(x.Post, after)
+		}
+		return meet(held, after)
+	case *ast.RangeStmt:
+		w.record(x.X, held, false)
+		after := w.block(x.Body, held)
+		return meet(held, after)
+	case *ast.SwitchStmt:
+		if x.Init != nil {
+			held = w.stmt(x.Init, held)
+		}
+		w.record(x.Tag, held, false)
+		return w.clauses(x.Body, held)
+	case *ast.TypeSwitchStmt:
+		if x.Init != nil {
+			held = w.stmt(x.Init, held)
+		}
+		w.stmt(x.Assign, held)
+		return w.clauses(x.Body, held)
+	case *ast.SelectStmt:
+		return w.clauses(x.Body, held)
+	}
+	return held
+}
+
+func (w *lockWalker) clauses(b *ast.BlockStmt, held lockSet) lockSet {
+	res := held
+	for _, c := range b.List {
+		var body []ast.Stmt
+		h := held
+		switch cc := c.(type) {
+		case *ast.CaseClause:
+			for _, e := range cc.List {
+				w.record(e, held, false)
+			}
+			body = cc.Body
+		case *ast.CommClause:
+			if cc.Comm != nil {
+				h = w.stmt(cc.Comm, held)
+			}
+			body = cc.Body
+		}
+		blk := &ast.BlockStmt{List: body}
+		out := w.block(blk, h)
+		if !terminates(blk) {
+			res = meet(res, out)
+		}
+	}
+	return res
+}
+
+func (w *lockWalker) body(name string, b *ast.BlockStmt) {
+	saved := w.fn
+	w.fn = name
+	w.block(b, nil)
+	w.fn = saved
+}
+
+func lockFacts(dir string, out io.Writer) {
+	fset := token.NewFileSet()
+	ents, err := os.ReadDir(dir)
+	if err != nil {
+		fmt.Fprintln(os.Stderr, err)
+		os.Exit(1)
+	}
+	var files []*ast.File
+	for _, e := range ents {
+		n := e.Name()
+		if !strings.HasSuffix(n, ".go") || strings.HasSuffix(n, "_test.go") || strings.HasPrefix(n, "verif_") {
+			continue
+		}
+		f, err := parser.ParseFile(fset, filepath.Join(dir, n), nil, parser.ParseComments)
+		if err != nil {
+			fmt.Fprintln(os.Stderr, err)
+			os.Exit(1)
+		}
+		// honour build constraints the cheap way: skip files for other operating systems
+		skip := false
+		for _, cg := range f.Comments {
+			for _, c := range cg.List {
+				if strings.HasPrefix(c.Text, "//go:build") && (strings.Contains(c.Text, "windows") || strings.Contains(c.Text, "plan9")) &&
+					!strings.Contains(c.Text, "!windows") && !strings.Contains(c.Text, "!plan9") {
+					skip = true
+				}
+			}
+		}
+		if !skip {
+			files = append(files, f)
+		}
+	}
+	info := &types.Info{Types: map[ast.Expr]types.TypeAndValue{}, Selections: map[*ast.SelectorExpr]*types.Selection{},
+		Uses: map[*ast.Ident]types.Object{}, Defs: map[*ast.Ident]types.Object{}}
+	conf := types.Config{Importer: importer.ForCompiler(fset, "source", nil), Error: func(error) {}}
+	pkg, _ := conf.Check("github.com/rminnich/go9p", fset, files, info)
+	var acc []access
+	w := &lockWalker{fset: fset, info: info, pkg: pkg, out: &acc}
+	for _, f := range files {
+		for _, d := range f.Decls {
+			fd, ok := d.(*ast.FuncDecl)
+			if !ok || fd.Body == nil {
+				continue
+			}
+			name := fd.Name.Name
+			if fd.Recv != nil && len(fd.Recv.List) == 1 {
+				name = strings.TrimPrefix(exprText(fd.Recv.List[0].Type), "*") + "." + name
+			}
+			w.body(name, fd.Body)
+		}
+	}
+	sort.SliceStable(acc, func(i, j int) bool {
+		if acc[i].file != acc[j].file {
+			return acc[i].file < acc[j].file
+		}
+		return acc[i].line < acc[j].line
+	})
+	p := func(f string, a ...interface{}) { fmt.Fprintf(out, f+"\n", a...) }
+	p("/- GENERATED by /verif/extract -lockfacts from /repo's working tree on every run. Do not edit. -/")
+	p("namespace G9.GeneratedLocks")
+	p("structure Held where")
+	p("  typ : String")
+	p("  base : String")
+	p("  deriving Repr, DecidableEq")
+	p("structure Access where")
+	p("  fn : String")
+	p("  field : String")
+	p("  base : String")
+	p("  write : Bool")
+	p("  held : List Held")
+	p("  file : String")
+	p("  line : Nat")
+	p("  deriving Repr")
+	// only struct types that own a mutex, or whose fields a mutex of another type is meant to guard, matter;
+	// the expectations decide which — everything is emitted, grouped by file to keep the terms small
+	byFile := map[string][]access{}
+	var fnames []string
+	for _, a := range acc {
+		if _, ok := byFile[a.file]; !ok {
+			fnames = append(fnames, a.file)
+		}
+		byFile[a.file] = append(byFile[a.file], a)
+	}
+	var defs []string
+	for _, fn := range fnames {
+		def := "acc_" + strings.NewReplacer(".", "_", "-", "_").Replace(fn)
+		defs = append(defs, def)
+		p("def %s : List Access := [", def)
+		for i, a := range byFile[fn] {
+			var hs []string
+			for _, h := range a.held {
+				hs = append(hs, fmt.Sprintf("⟨%q, %q⟩", h.typ, h.base))
+			}
+			sep := ","
+			if i == len(byFile[fn])-1 {
+				sep = ""
+			}
+			p("  { fn := %q, field := %q, base := %q, write := %v, held := [%s], file := %q, line := %d }%s",
+				a.fn, a.field, a.base, a.write, strings.Join(hs, ", "), a.file, a.line, sep)
+		}
+		p("]")
+	}
+	p("def files : List (String × List Access) := [%s]", func() string {
+		var xs []string
+		for i, fn := range fnames {
+			xs = append(xs, fmt.Sprintf("(%q, %s)", fn, defs[i]))
+		}
+		return strings.Join(xs, ", ")
+	}())
+	p("end G9.GeneratedLocks")
+}
